@@ -55,10 +55,18 @@ type adata struct {
 }
 
 type sys struct {
-	c   *ctl.Ctl
-	ctr *ccontainer.CContainer[uint64]
-	w   *hist.W
-	cfg []uint64
+	c    *ctl.Ctl
+	ctr  *ccontainer.CContainer[uint64]
+	w    *hist.W
+	cfg  []uint64
+	prof int // generation profile: 0 mixed, 1 waiter-heavy, 2 writer-heavy
+}
+
+// cumulative weights (out of 100) of: get, set, swap, wait, step, cancel; the rest is error-channel events
+var profiles = [3][6]int{
+	{5, 13, 21, 33, 82, 89},
+	{3, 13, 19, 41, 86, 90},
+	{8, 16, 36, 42, 92, 95},
 }
 
 func eqOf(code uint64) func(a, b uint64) bool {
@@ -331,14 +339,15 @@ func (s *sys) gen(r *rand.Rand, maxActs int) []uint64 {
 		}
 	}
 	room := len(s.c.Acts) < maxActs
+	pw := profiles[s.prof]
 	for tries := 0; tries < 200; tries++ {
 		x := r.IntN(100)
 		switch {
-		case x < 5 && room:
+		case x < pw[0] && room:
 			return []uint64{1}
-		case x < 13 && room:
+		case x < pw[1] && room:
 			return []uint64{2, smallVal(r)}
-		case x < 21 && room:
+		case x < pw[2] && room:
 			f := uint64(r.IntN(4))
 			if r.IntN(2) == 0 {
 				f = 1
@@ -351,7 +360,7 @@ func (s *sys) gen(r *rand.Rand, maxActs int) []uint64 {
 				k = 0
 			}
 			return []uint64{3, f, k}
-		case x < 33 && room:
+		case x < pw[3] && room:
 			kind := uint64(r.IntN(4))
 			var a, b uint64
 			switch kind {
@@ -368,11 +377,11 @@ func (s *sys) gen(r *rand.Rand, maxActs int) []uint64 {
 				hc = 1
 			}
 			return []uint64{4, kind, a, b, hc}
-		case x < 82 && len(gates) > 0:
+		case x < pw[4] && len(gates) > 0:
 			return []uint64{5, uint64(gates[r.IntN(len(gates))])}
-		case x < 89 && len(cancellable) > 0:
+		case x < pw[5] && len(cancellable) > 0:
 			return []uint64{6, uint64(cancellable[r.IntN(len(cancellable))])}
-		case x >= 89 && len(errable) > 0:
+		case x >= pw[5] && len(errable) > 0:
 			m := uint64(r.IntN(3))
 			if r.IntN(3) == 0 {
 				m = 0
@@ -478,8 +487,10 @@ func runRandom(t *testing.T, w *hist.W, h int) {
 		cfg := genCfg(r)
 		s := newSys(w, cfg)
 		defer s.teardown()
+		s.prof = r.IntN(3)
 		w.Begin(fmt.Sprintf("r%d", h), cfg)
 		w.Count(fmt.Sprintf("cfg.eq%d", cfg[0]), 1)
+		w.Count(fmt.Sprintf("profile.%d", s.prof), 1)
 		steps := 10 + r.IntN(60)
 		maxActs := 4 + r.IntN(9)
 		var prev []uint64
